@@ -1267,6 +1267,14 @@ fn case_insensitive_case(ctx: &mut Ctx, c: &TextCfg, old: &[u8], new: &[u8]) {
             if ops != direct {
                 ctx.violation("C14", &req, format!("ops {} differ from diffing the diff's own token slices directly: {}", proto::show_ops(&ops), proto::show_ops(&direct)));
             }
+            // C20, relabelling: folding every token to lower case is an injective relabelling of the type's equality classes, so
+            // the `[u8]` diff of the folded texts has the same equality pattern and must have the same ops
+            let (lo, ln) = (old.to_ascii_lowercase(), new.to_ascii_lowercase());
+            if let Some(folded) = text_eval_mode(c, DlHow::Deadline, Mode::Bytes, &lo, &ln) {
+                if folded.ops != ops {
+                    ctx.violation("C20", &req, format!("the same equality pattern with other token bytes (everything folded to lower case, as [u8]) gives other ops: {} vs {}", proto::show_ops(&folded.ops), proto::show_ops(&ops)));
+                }
+            }
             if let Some(e) = bad_side {
                 ctx.violation("C13", &req, e.clone());
                 ctx.violation("C04", &req, e);
